@@ -46,7 +46,8 @@ PROPS = {
              "every call addresses its own slot and no slot is lost or reverted by another test's concurrent write",
         assumptions=ASSUME_WB + ["the history stage interleaves calls one at a time; preemption inside a call is explored by the concurrent_slots stage (statement granularity) and exhaustively by C06"],
         stages=[dict(name="history", run="^TestC03_", quick=600, thorough=5000, shards_quick=4, shards_thorough=16),
-                dict(name="concurrent_slots", engine="sched", run="^TestC03_ConcurrentSlots$", quick=200, thorough=2000, shards_quick=4, shards_thorough=16)],
+                dict(name="concurrent_slots", engine="sched", run="^TestC03_ConcurrentSlots$", quick=200, thorough=2000, shards_quick=4, shards_thorough=16),
+                dict(name="other_tests", engine="bb", run="^TestC03BB_", quick=40, thorough=600, shards_quick=4, shards_thorough=16, trimpath=True)],
     ),
     "C04": dict(
         rule="case = file recorded by a first process (1-3 tests, 1-12 calls each over all five APIs, plus foreign pre-existing entries), a second process with updating enabled "
